@@ -47,7 +47,26 @@ def make_case(rng):
         steps = adds + readds + calls + calls + [['snapshot']]           # no outer window at all: only the programs' own `with prof:` blocks
     else:
         steps = adds + readds + [['enbc']] + calls + [['disbc'], ['snapshot']]
-    return {'prog': prog, 'steps': steps, 'mode': 'window', 'registered': reg, 'twin_mode': mode}
+    case = {'prog': prog, 'steps': steps, 'mode': 'window', 'registered': reg, 'twin_mode': mode}
+    r4 = rng.fork('presession')
+    if len(family) >= 2 and r4.chance(1, 3):
+        # an earlier profiler of the same process (a previous %lprun / in-process kernprof run) had some of the byte-identical functions
+        # registered: they arrive with the padded bytecode it gave them
+        case['presession'] = r4.sample(family, r4.below(len(family) - 1) + 2)
+    return case
+
+
+def presession_case():
+    """the recorded history of F-C04c: three copies of a function on the same lines of three files; an earlier profiler had a and b, this one
+    gets a, c, b — b arrives with exactly the bytes this profiler pads c to"""
+    body = 'def work(n):\n    t = 0\n    for i in range(n):\n        t += i\n    return t\n'
+    main = 'def driver(n):\n    return [work_a(1), work_c(n), work_b(n + 2)]\n'
+    prog = {'files': [['prog_lib.py', progs.PRELUDE], ['prog_0.py', body.replace('work', 'work_a')], ['prog_1.py', body.replace('work', 'work_b')],
+                      ['prog_2.py', body.replace('work', 'work_c')], ['prog_main.py', main]],
+            'funcs': [['prog_0.py', 'work_a', 'plain'], ['prog_1.py', 'work_b', 'plain'], ['prog_2.py', 'work_c', 'plain'], ['prog_main.py', 'driver', 'plain']],
+            'driver': 'driver', 'features': ['presession']}
+    return {'prog': prog, 'steps': [['add', 'work_a'], ['add', 'work_c'], ['add', 'work_b'], ['enbc'], ['call', 3], ['disbc'], ['snapshot']], 'mode': 'window',
+            'registered': ['work_a', 'work_b', 'work_c'], 'twin_mode': 'same_lines', 'presession': ['work_a', 'work_b']}
 
 
 def same_name_twins_case(via_module, n=4):
@@ -202,7 +221,8 @@ def run(ctx):
         'evaluations': len(cases), 'distinct_nontrivial': len(nontrivial),
         'rule': 'G_prog programs with a byte-identical twin (same file; other file with identical line numbers; other file with overlapping line range) '
                 'x registered subsets forcing original-only / twin-only / both; non-trivial = a twin pair with at least one member registered and executed',
-        'traces_validated_against_impl': len(cases) - kdiff, 'correspondence_disagreements': kdiff, 'distribution': dist, 'corpus_cases': ncorpus})
+        'traces_validated_against_impl': len(cases) - kdiff, 'correspondence_disagreements': kdiff, 'distribution': dist, 'corpus_cases': ncorpus,
+        'cases_with_functions_padded_by_an_earlier_profiler': sum(1 for c in cases if c.get('presession'))})
     ctx.coverage['samples'].append({'registered': cases[-1]['registered'], 'twin_mode': cases[-1].get('twin_mode'),
                                     'files': [f for f, _ in cases[-1]['prog']['files']],
                                     'real_final_snapshot': results[-1].get('real_snaps', ['?'])[-1][:300]})
